@@ -4,6 +4,7 @@ go 1.23.0
 
 require (
 	github.com/pkg/errors v0.9.1
+	golang.org/x/crypto v0.37.0
 	google.golang.org/protobuf v1.36.6
 	perun.network/go-perun v0.0.0
 	polycry.pt/poly-go v0.0.0-20220301085937-fb9d71b45a37
@@ -17,7 +18,6 @@ require (
 	github.com/sirupsen/logrus v1.9.3 // indirect
 	github.com/stretchr/testify v1.10.0 // indirect
 	github.com/syndtr/goleveldb v1.0.1-0.20210819022825-2ae1ddf74ef7 // indirect
-	golang.org/x/crypto v0.37.0 // indirect
 	golang.org/x/sync v0.13.0 // indirect
 	golang.org/x/sys v0.32.0 // indirect
 	gopkg.in/yaml.v3 v3.0.1 // indirect
